@@ -469,6 +469,8 @@ Alphabet ==
                                           {<<>>, Wa, Bul \o Wa, BulBare \o Tab \o Wa, Dash3, Fence, HashA, <<"#">> \o Tab \o Wa, Gt \o Wa, Ord \o Wa, <<"1", ".">> \o Tab \o Wa, Tab \o Wa}))
     [] AlphaName = "tabs2" -> NoTrail(Cat({<<>>, GtS, Bul, Bul \o Bul, S2}, {<<>>, Tab, S1 \o Tab, S3 \o Tab, Tab \o S1}, {<<>>, Wa, Bul \o Wa, BulBare \o Tab \o Wa, Fence, Tab \o Wa, Gt \o Tab \o Wa}))
     [] AlphaName = "refs"  -> NoTrail(Cat({<<>>}, {<<>>, GtS, Bul, S2, S4}, {<<>>, Wa, DefA, DefA2, LabA, DestU, TitleT, UseA, Eq3, Dash3, HashA \o S1 \o UseA, DefB \o S1 \o TitleT}))
+    [] AlphaName = "fencetabs" -> {GtS \o Fence, Gt \o Tab \o Fence, Gt \o Tab \o Wa, GtS \o Wa, Wa, <<>>, Fence, Tab \o Fence, Gt \o Tab \o Tab \o Wa,
+                                   BulBare \o Tab \o Fence, Bul \o Fence, S2 \o Tab \o Fence, S4 \o Gt \o Tab \o Fence, Gt, HashA}
     [] AlphaName = "scaled" -> {}
     [] AlphaName = "wide"  -> NoTrail(Cat({<<>>, Gt, GtS, Bul, Ord, S2, S3, S4}, {<<>>, Gt, GtS, Bul, Plus, Ord, Ord2, S1, S2, S4},
                                           {<<>>, Wa, Dash3, Eq3, Hash, HashA, Fence, Tilde, FenceInfo, BulBare}))
